@@ -16,9 +16,23 @@ answers: v<hex> | none | t | f | ok;  <sites>: the schedule point each step ende
 `-` for a skipped entry; <drain>: thread digit + site per drain step;  counters as the 64-bit
 words the Rust reports;  contents sorted by key, `k:<hex>` or `k:x<size>` for an entry whose TTL
 has ended.
+
+DiskCache under the controller (Model/DiskConc), one case per line as well:
+
+  drun keys=<cache key string>,… pre=<ops> t=<ops>|<ops>[|<ops>] s=<digits>
+  -> pre=<answers> r=<answers>|… tr=<sites>/<drain> n=<entry_count> b=<disk_usage> c=<t/f per key>
+     fs=<file name>=<hex>;… g=<get answer per key> n2=<entry_count> b2=<disk_usage>
+
+ops as above without `z`; key `i` is the i-th string of `keys=`; its file is that string, its
+temporary file is `Model/Path.withExtTmp` of it (C20's model of `Path::with_extension("tmp")`).
+After the schedule the books are read (`n`, `b`), then `contains` of every key (`c`), then the
+directory listing sorted by name (`fs`), then `get` of every key in order, alone (`g`), then the
+books again (`n2`, `b2`).  answers additionally: err.
 -/
 import Driver.Common
 import Cascette.Model.MemConc
+import Cascette.Model.DiskConc
+import Cascette.Model.Path
 open Cascette Drv
 open Cascette.Model
 open Cascette.Model.MemConc
@@ -86,8 +100,133 @@ def siteAt (y : Sys MemCache.State Thread Ev) (i : Nat) : Char :=
   | some t => t.site
   | none => '?'
 
+/-! ## DiskCache -/
+
+namespace DiskDrv
+open Cascette.Model.DiskConc
+
+def parseOp (t : String) : Option DiskConc.Op :=
+  match t.toList with
+  | 'g' :: r => (String.ofList r).toNat?.map .get
+  | 'c' :: r => (String.ofList r).toNat?.map .contains
+  | 'r' :: r => (String.ofList r).toNat?.map .remove
+  | c :: r =>
+    if c = 'p' ∨ c = 'x' then
+      match (String.ofList r).splitOn ":" with
+      | [k, h] =>
+        match k.toNat?, parseHexNat h with
+        | some k, some v => some (.put k v (c = 'x'))
+        | _, _ => none
+      | _ => none
+    else none
+  | [] => none
+
+def opKey : DiskConc.Op → Nat
+  | .get k => k | .contains k => k | .put k _ _ => k | .remove k => k
+
+def parseOps (s : String) : Option (List DiskConc.Op) :=
+  if s == "-" then some [] else
+  (s.splitOn ",").foldr (fun t acc => match parseOp t, acc with
+    | some o, some l => some (o :: l)
+    | _, _ => none) (some [])
+
+def parseProgs (s : String) : Option (List (List DiskConc.Op)) :=
+  (s.splitOn "|").foldr (fun t acc => match parseOps t, acc with
+    | some o, some l => some (o :: l)
+    | _, _ => none) (some [])
+
+/-- `path.with_extension("tmp")` on a bare file name, by C20's model -/
+def tmpName (name : String) : String :=
+  match Cascette.Model.Path.withExtTmp [name.toList] with
+  | [c] => String.ofList c
+  | _ => name
+
+def idxOf (names : List String) (x : String) : Nat :=
+  match names.findIdx? (· == x) with
+  | some i => i
+  | none => names.length
+
+def showOut : DiskConc.Out → String
+  | .val (some v) => "v" ++ hexOfNats v
+  | .val none => "none"
+  | .bool true => "t"
+  | .bool false => "f"
+  | .unit => "ok"
+  | .err => "err"
+
+def showResults (t : DiskConc.Thread) : String :=
+  if t.results.isEmpty then "-" else ",".intercalate (t.results.map (fun r => showOut r.2))
+
+def siteAt (y : Sys DiskConc.State DiskConc.Thread Unit) (i : Nat) : Char :=
+  match y.threads[i]? with
+  | some t => t.site
+  | none => '?'
+
+def insStr (x : String × String) : List (String × String) → List (String × String)
+  | [] => [x]
+  | y :: t => if x.1 < y.1 then x :: y :: t else y :: insStr x t
+
+def showFs (paths : List String) (fs : DiskConc.Fs) : String :=
+  let l := fs.dir.map (fun p => (paths.getD p.1 "?", match fs.inodes[p.2]? with
+                                                      | some v => hexOfNats v
+                                                      | none => "?"))
+  let l := l.foldr insStr []
+  if l.isEmpty then "-" else ";".intercalate (l.map (fun p => p.1 ++ "=" ++ p.2))
+
+def finish (m : Machine DiskConc.State DiskConc.Thread Unit) :
+    Nat → Sys DiskConc.State DiskConc.Thread Unit → List Char →
+    Sys DiskConc.State DiskConc.Thread Unit × List Char
+  | 0, y, acc => (y, acc)
+  | f + 1, y, acc =>
+    match firstLive m y.threads 0 with
+    | none => (y, acc)
+    | some i =>
+      let y' := stepAt m y i
+      finish m f y' (siteAt y' i :: Char.ofNat ('0'.toNat + i) :: acc)
+
+def handle (keys pre ts sc : String) : String :=
+  let names := keys.splitOn ","
+  match parseOps pre, parseProgs ts, parseSched sc with
+  | some pre, some progs, some sched =>
+    let nk := names.length
+    if names.any (· == "") ∨ progs.length > 9 ∨
+       (pre :: progs).any (fun p => p.any (fun op => decide (opKey op ≥ nk))) then "bad-op" else
+    let tmps := names.map tmpName
+    let paths := (names ++ tmps).eraseDups
+    let L : Layout := { fin := fun k => idxOf paths (names.getD k ""), tmp := fun k => idxOf paths (tmps.getD k "") }
+    let m := DiskConc.machine L
+    let y0 := (drain m 100000 (DiskConc.sys DiskConc.init [pre])).1
+    let preT := match y0.threads with | t :: _ => showResults t | [] => "-"
+    let y1 := DiskConc.sys y0.shared progs
+    let (y2, tr) := sched.foldl (fun (acc : Sys DiskConc.State DiskConc.Thread Unit × List Char) i =>
+      match acc.1.threads[i]? with
+      | none => (acc.1, '-' :: acc.2)
+      | some t =>
+        if t.done then (acc.1, '-' :: acc.2) else
+        let y' := stepAt m acc.1 i
+        (y', siteAt y' i :: acc.2)) (y1, [])
+    let (y3, dr) := finish m 100000 y2 []
+    let s := y3.shared
+    let ks := List.range nk
+    let yc := (drain m 100000 (DiskConc.sys s [ks.map .contains])).1
+    let cT := match yc.threads with | t :: _ => String.ofList (t.results.map (fun r => match r.2 with | .bool true => 't' | _ => 'f')) | [] => ""
+    let yg := (drain m 100000 (DiskConc.sys s [ks.map .get])).1
+    let gT := match yg.threads with | t :: _ => showResults t | [] => "-"
+    "pre=" ++ preT ++ " r=" ++ "|".intercalate (y3.threads.map showResults) ++
+      " tr=" ++ String.ofList tr.reverse ++ "/" ++ String.ofList dr.reverse ++
+      " n=" ++ toString (wrap s.count) ++ " b=" ++ toString (wrap s.bytes) ++
+      " c=" ++ cT ++ " fs=" ++ showFs paths s.fs ++ " g=" ++ gT ++
+      " n2=" ++ toString (wrap yg.shared.count) ++ " b2=" ++ toString (wrap yg.shared.bytes)
+  | _, _, _ => "bad-op"
+
+end DiskDrv
+
 def handle (toks : List String) : String :=
   match toks with
+  | ["drun", keys, pre, ts, sc] =>
+    match kv "keys=" keys, kv "pre=" pre, kv "t=" ts, kv "s=" sc with
+    | some keys, some pre, some ts, some sc => DiskDrv.handle keys pre ts sc
+    | _, _, _, _ => "bad-op"
   | ["run", mx, pol, pre, ts, sc] =>
     match (kv "max=" mx).bind (·.toNat?), kv "pol=" pol, (kv "pre=" pre).bind parseOps,
           (kv "t=" ts).bind parseProgs, (kv "s=" sc).bind parseSched with
